@@ -3,6 +3,6 @@
 d=$1; shift
 s=$(mktemp -d /tmp/try.XXXXXX)
 rsync -a --exclude .git /repo/ $s/
-(cd $s && patch -s -p1 < ${VERIF:-/verif}/$d/patch.diff) || { echo "patch failed"; rm -rf $s; exit 3; }
+(cd $s && patch -s -p1 < /verif/$d/patch.diff) || { echo "patch failed"; rm -rf $s; exit 3; }
 for p in "$@"; do VERIF_EVIDENCE_DIR=$s/.ev ${VERIF:-/verif}/check $p --repo $s 2>&1 | grep -v "^KNOWN" | cut -c1-${TRYW:-700}; done
 rm -rf $s
